@@ -114,6 +114,11 @@ theorem sliceByTime_sublist (idx : List Ent) (t0 start stop : Option Nat) (c : L
     injection h with h; subst h
     exact (List.drop_sublist _ _).trans (List.take_sublist _ _)
 
+theorem stride_sublist (k : Nat) (l : List Ent) : (stride k l).Sublist l := by
+  fun_induction stride k l with
+  | case1 => exact List.Sublist.refl _
+  | case2 x xs ih => exact List.Sublist.cons_cons _ (ih.trans (List.drop_sublist _ _))
+
 /-- **One operation.** Related states give the same answer and remain related. -/
 theorem step_sim (s : Cur) (a : Abs) (r : Rel s a) (op : Op) :
     (step s op).2 = (absStep a op).2 ∧ Rel (step s op).1 (absStep a op).1 := by
@@ -155,6 +160,9 @@ theorem step_sim (s : Cur) (a : Abs) (r : Rel s a) (op : Op) :
   | filterSlice i j =>
     dsimp only [step, absStep]
     exact ⟨rfl, mk _ (hsc.sublist ((List.drop_sublist _ _).trans (List.take_sublist _ _)))⟩
+  | filterStride i j k =>
+    dsimp only [step, absStep]
+    exact ⟨rfl, mk _ (hsc.sublist ((stride_sublist _ _).trans ((List.drop_sublist _ _).trans (List.take_sublist _ _))))⟩
   | removeUntimed =>
     dsimp only [step, absStep]
     exact ⟨rfl, mk _ (hsc.sublist List.filter_sublist)⟩
